@@ -182,16 +182,29 @@ def _owner(b, prog):
     return getattr(x, "alias_of", None) or x.nname          # a known function found under a new path (moved to another module) is the same stage
 
 
+def _stages_gone(prog, names):
+    return sorted(n.split("::")[-1] for n in names if prog.body(n) is None)
+
+
 def r5_issuance_confinement(ctx):
     r = ctx.rule("R5", "coins / pools / fee_pool / tips are written only inside the enumerated stages, and each stage is called only from its enumerated caller", positional=False)
     prog = ctx.prog
     n = {"insert_coin": 0, "remove_coin": 0, "pools": 0}
+    # the stages are enumerated by name; when one of them is no longer there under its name (renamed, turned into a method, merged into its
+    # caller) a writer outside the list may simply BE that stage: not decided then
+    gone = _stages_gone(prog, COIN_WRITERS | POOL_WRITERS)
+
+    def chk(ok, key, okmsg, badmsg, where):
+        if ok or not gone:
+            r.check(ok, key, okmsg, badmsg, where)
+        else:
+            r.undecided(key, "%s — but the enumerated stage(s) %s no longer exist under their names: whether this writer is one of them is not decided" % (badmsg, gone), where)
     for b, bi, t in prog.call_sites(lambda nm, p: nm in ("melstf::state::coins::CoinMapping::insert_coin", "melstf::state::coins::CoinMapping::remove_coin")):
         which = mir.callee_name(t).split("::")[-1]
         n[which] += 1
         own = _owner(b, prog)
         ok = own in COIN_WRITERS or own.startswith("melstf::state::melmint::process_") and own.endswith("_for_single_pool")
-        r.check(ok, "%s@%s" % (which, own.split("::")[-1]), "%s in %s" % (which, own.split("::")[-1]), "%s writes coins (%s) outside the issuance stages" % (b.nname, which), b.where(bi))
+        chk(ok, "%s@%s" % (which, own.split("::")[-1]), "%s in %s" % (which, own.split("::")[-1]), "%s writes coins (%s) outside the issuance stages" % (b.nname, which), b.where(bi))
     for b, bi, t in prog.call_sites(lambda nm, p: nm == "melstf::smtmapping::SmtMapping::insert"):
         e = b.rec_call(t, bi)
         g = (t["fn"] or {}).get("gargs", [])
@@ -199,7 +212,7 @@ def r5_issuance_confinement(ctx):
             continue
         n["pools"] += 1
         own = _owner(b, prog)
-        r.check(own in POOL_WRITERS, "pool-write@%s" % own.split("::")[-1], "pool written in %s" % own.split("::")[-1], "%s writes a pool entry outside the Melmint stages" % b.nname, b.where(bi))
+        chk(own in POOL_WRITERS, "pool-write@%s" % own.split("::")[-1], "pool written in %s" % own.split("::")[-1], "%s writes a pool entry outside the Melmint stages" % b.nname, b.where(bi))
     r.floor("insert_coin sites", n["insert_coin"], 8)
     r.floor("remove_coin sites", n["remove_coin"], 3)
     r.floor("pool write sites", n["pools"], 8)
